@@ -4,7 +4,7 @@
     every construction value, every stream, every position. *)
 From Yata Require Import Base.Prelude Base.Num Base.NumR Core.Window Core.Candle
   Spec.Hist Spec.MethodDefs Methods.Basic Proofs.MethodsCommon Proofs.Windowed Proofs.Windowed2 Proofs.Windowed3 Proofs.Windowed4
-  Proofs.Windowed5 Proofs.Windowed6.
+  Proofs.Windowed5 Proofs.Windowed6 Proofs.Swma.
 From Coq Require Import Reals Lra.
 Open Scope Z_scope.
 
@@ -64,6 +64,9 @@ Theorem C02_hma n v xs x : 2 <= n <= pmax - 1 ->
     snd (hma_next (steps hma_next s0 xs) x) =
     hma_def (Z.to_nat n) (Z.to_nat (n / 2)) (Z.to_nat (hma_len3 n)) (hget v (rev (xs ++ [x]))).
 Proof. exact (hma_correct n v xs x). Qed.
+(** symmetric weights 1,2,..,2,1 (two half windows) *)
+Theorem C02_swma : windowed_correct swma_new swma_next (swma_def (N := NumR)) 1 (pmax - 1).
+Proof. exact swma_correct. Qed.
 End C02.
 
 (** non-vacuity: the hypotheses are met and the statement is about a concrete,
